@@ -25,7 +25,15 @@ fn main() {
         }
     }
     walk(root, &mut text);
-    let has = |needle: &str| text.contains(needle);
+    let mut ttext = String::new();
+    walk("/repo/contracts/treasury/src", &mut ttext);
+    let has = |needle: &str| {
+        if let Some(n) = needle.strip_prefix("T:") {
+            ttext.contains(n)
+        } else {
+            text.contains(needle)
+        }
+    };
     for (cfg, needle) in [
         ("has_addess_hash", "pub fn addess_hash("),
         ("has_address_hash", "pub fn address_hash("),
@@ -37,6 +45,9 @@ fn main() {
         ("has_validate_addresses", "pub fn validate_addresses("),
         ("has_validate_denom", "pub fn validate_denom("),
         ("has_validate_ibc_denom", "pub fn validate_ibc_denom("),
+        ("has_staking_ibc_timeout", "pub const IBC_TIMEOUT"),
+        ("has_treasury_ibc_timeout", "T:pub const IBC_TIMEOUT"),
+        ("has_treasury_validate_address", "T:pub fn validate_address("),
     ] {
         println!("cargo:rustc-check-cfg=cfg({cfg})");
         if has(needle) {
@@ -44,5 +55,6 @@ fn main() {
         }
     }
     println!("cargo:rerun-if-changed=/repo/contracts/staking/src");
+    println!("cargo:rerun-if-changed=/repo/contracts/treasury/src");
     println!("cargo:rerun-if-changed=build.rs");
 }
